@@ -252,9 +252,15 @@ def table_cals(tabs, names):
     return [(list(tabs[n][0]), list(tabs[n][1])) for n in names]
 
 
-def gen_eq_named(ctx, tabs, n):
-    """== involving NamedCal; every case sweeps 84 371 days over multi-thousand-entry tables in the model (seconds each)."""
+def name_parts(nm):
+    return [x for x in nm.lower().replace("|", ",").split(",")]
+
+
+def gen_eq_named(ctx, tabs, n, budget):
+    """== involving NamedCal.  The model sweeps 84 371 days over the holiday tables of both operands: about 1 s per 100 table
+    entries, so a case costs (entries on both sides)/100 seconds; `budget` bounds that number of entries per case."""
     rng = ctx.rng
+    size = lambda names: sum(len(tabs[x][1]) for x in names)
     fixed = [
         ("tgt", ("x", ["tgt"], None, "same")), ("TGT,ldn", ("n", "Ldn,tGT")), ("tgt|ldn", ("n", "tgt")), ("fed", ("n", "nyc")),
         ("bus", ("x", None, None, "bus-explicit")), ("all", ("x", None, None, "all-explicit")),
@@ -263,21 +269,31 @@ def gen_eq_named(ctx, tabs, n):
         ("osl", ("x", ["osl"], None, "drop-one")), ("zur|wlg", ("x", ["zur"], ["wlg"], "drop-one-settle")),
         ("nyc", ("x", ["nyc"], None, "add-one")), ("ldn", ("x", ["ldn"], None, "drop-first-day")),
         ("tgt|fed", ("x", ["fed"], ["tgt"], "same")),
+        ("tgt", ("x", ["tgt"], None, "drop-one")), ("Tgt,BUS", ("n", "tgt")), ("tgt|bus", ("n", "tgt")), ("tgt,all", ("x", ["tgt"], None, "add-one")),
+        ("TGT", ("x", ["tgt"], None, "only-outside")), ("tgt", ("x", ["tgt"], None, "drop-first-day")), ("bus|tgt", ("x", ["bus"], ["tgt"], "drop-one-settle")),
+        ("mum", ("x", ["mum"], None, "drop-one")), ("all|bus", ("n", "bus|all")),
     ]
-    picks = list(fixed)
+
+    def cost(nm, spec):
+        other = name_parts(spec[1]) if spec[0] == "n" else ((spec[1] or []) + (spec[2] or []))
+        return size(name_parts(nm)) + size(other)
+
+    picks = [x for x in fixed if cost(*x) <= budget]
     rng.shuffle(picks)
-    while len(picks) < n:
+    tries = 0
+    while len(picks) < n and tries < 10000:
+        tries += 1
         mem, settle = gen_valid(rng)
         mem, settle = mem[:2], (settle[:1] if settle else None)
         nm = render(rng, mem, settle)
-        picks.append((nm, ("x", mem, settle, rng.choice(["same", "drop-one", "add-one", "only-outside", "drop-one-settle"]))))
+        cand = (nm, ("x", mem, settle, rng.choice(["same", "drop-one", "add-one", "only-outside", "drop-one-settle"])))
+        if cost(*cand) <= budget:
+            picks.append(cand)
     out = []
     for nm, spec in picks[:n]:
-        ka = rng.choice([4, 4, 4, 5])
-        ea = calgen.enc_named(nm, ka)
         if spec[0] == "n":
-            kb = ka
-            eb = calgen.enc_named(spec[1], kb)
+            ka = kb = rng.choice([4, 4, 5])
+            ea, eb = calgen.enc_named(nm, ka), calgen.enc_named(spec[1], kb)
             lab = "named-vs-named"
         else:
             _, mem, settle, lab = spec
@@ -386,6 +402,7 @@ def run(ctx):
         return ctx.finish(cmd)
     if not harness_stage(ctx):
         return ctx.finish(cmd)
+    tm = [("proofs+builds", time.time() - ctx.t0)]
 
     # (a) + (b) name strings
     n_names = 3000 if th else 330
@@ -408,9 +425,9 @@ def run(ctx):
         cases.append((enc, 21, []))
         if spec is not None:
             valid.append((s, spec))
-    wcount = (6, 500) if th else (2, 366)
+    wcount = (6, 500) if th else (1, 240)
     rng.shuffle(valid)
-    for s, spec in valid[:(600 if th else 90)]:
+    for s, spec in valid[:(600 if th else 64)]:
         enc = calgen.enc_named(s, rng.choice([4, 4, 5]))
         for d0, cnt in windows(rng, *wcount):
             cases.append((enc, 30, [d0, cnt]))
@@ -418,7 +435,7 @@ def run(ctx):
         if spec is None and rng.random() < 0.25:     # windows on malformed names as well (Err on both sides, or Ok by accident)
             cases.append((calgen.enc_named(s), 30, [rng.randint(D0, D1 - 100), 100]))
     # (b) explicit unions
-    for _ in range(400 if th else 60):
+    for _ in range(400 if th else 40):
         cals, settle, lo, hi = gen_base(rng)
         ctx.count("explicit union: members=%d settlement=%s" % (len(cals), "none" if settle is None else len(settle)))
         enc, _ = as_kind(rng, cals, settle)
@@ -428,10 +445,29 @@ def run(ctx):
         cases.append((enc, 30, [D0 - 15, 60]))
         cases.append((enc, 30, [D1 - 44, 60]))
     # (c) equality
-    cases += gen_eq_random(ctx, 1200 if th else 70)
+    cases += gen_eq_random(ctx, 1200 if th else 56)
+    # == with named calendars is expensive in the model: evaluated in the background, one coqc per case
+    eqn = gen_eq_named(ctx, tabs, 64 if th else 5, 100000 if th else 3800)
+    eqn_full = [list(e) + [o] + list(a) for e, o, a in eqn]
+    bg = ThreadPoolExecutor(max_workers=1)
+    fut = bg.submit(coq_eval, "Run.RunCal", "runCal", eqn_full, ctx.work, 1, 3000, "eqn")
+    t1 = time.time()
     calrun.run_cases(ctx, cases, nontrivial=lambda *a: True)
-    eqn = gen_eq_named(ctx, tabs, 64 if th else 12)
-    calrun.run_cases(ctx, eqn, nontrivial=lambda *a: True)
+    tm.append(("construct/ranges/random ==", time.time() - t1))
+    t1 = time.time()
+    eqn_impl = run_harness("cal", [calgen.line(c) for c in eqn_full])
+    eqn_model = fut.result()
+    bg.shutdown()
+    tm.append(("wait for named ==", time.time() - t1))
+    for (enc, op, args), a, b in zip(eqn, eqn_impl, eqn_model):
+        ctx.evaluations += 1
+        ctx.count("==")
+        ctx.nontriv((tuple(enc), op, tuple(args)))
+        if a != b:
+            ctx.violation("the implementation disagrees with the proved model on == between a named calendar and another calendar: "
+                          "implementation %s, model %s (0 1 = equal, 0 0 = not equal, 1 = Err, 2 = abort)" % (a, b),
+                          {"calendar_encoding": list(enc), "op": 20, "op_name": "==", "args": list(args), "implementation": a, "model": b,
+                           "harness_cmd": "echo '%s' | harness/target/release/rlharness cal" % calgen.line(list(enc) + [20] + list(args))[:2000]})
 
     # (d) named string vs explicit combination on the real code, every date
     lo, hi = D0 - 400, D1 + 400
@@ -454,6 +490,7 @@ def run(ctx):
     st = run_harness("named", [nvu_line("tgt|fed", ["fed"], ["tgt"], lo, hi)])[0]
     if not (len(st) == 6 and st[0] == 0 and st[1] > 0 and st[3] == 0):
         raise CheckError("nvu self-test: a swapped member/settlement list is not detected: %s" % st)
+    ctx.notes.append("stage timing (s): " + ", ".join("%s %.1f" % x for x in tm))
     for enc, op, args in (cases[:2] + cases[-2:] + eqn[:1]):
         ctx.sample({"calendar_encoding": list(enc[:30]), "call": calrun.describe(enc, op, list(args)[:30])})
     return ctx.finish(cmd)
